@@ -457,7 +457,20 @@ int64_t cmb_process_wait_process(struct cmb_process *awaited)
         /* Yield to the dispatcher and collect the return signal value */
         const int64_t sig = (int64_t)cmi_coroutine_yield(NULL);
 
-        /* Possibly much later */
+        /*
+         * Possibly much later. If something else than the end of the awaited
+         * process woke us (a timer, say), we are still registered with it.
+         * Deregister, and make sure that a wakeup call it may already have
+         * scheduled for us does not arrive later, in the middle of something else.
+         */
+        if (cmi_process_remove_awaitable(me, CMI_PROCESS_AWAITABLE_PROCESS, awaited)) {
+            if (!cmi_slist_is_empty(&(awaited->waiters))) {
+                (void)cmi_process_remove_waiter(awaited, me);
+            }
+
+            (void)cmb_event_pattern_cancel(wakeup_event_process, me, CMB_ANY_OBJECT);
+        }
+
         return sig;
     }
 }
@@ -489,7 +502,15 @@ int64_t cmb_process_wait_event(const uint64_t ev_handle)
     /* Yield to the dispatcher and collect the return signal value */
     const int64_t ret = (int64_t)cmi_coroutine_yield(NULL);
 
-    /* Possibly much later */
+    /*
+     * Possibly much later. If something else than the awaited event woke us,
+     * we are still registered with it, deregister (also cancels a wakeup call
+     * for us that the event may already have scheduled).
+     */
+    if (cmi_process_remove_awaitable(me, CMI_PROCESS_AWAITABLE_EVENT, (void *)ev_handle)) {
+        (void)cmi_event_remove_waiter(ev_handle, me);
+    }
+
     return ret;
 }
 
